@@ -11,6 +11,8 @@ func init() {
 		Rules: []Rule{
 			{Name: "G13", Doc: "result-pointer provenance, growth discipline, id-map agreement", MinInstances: 8, Run: runRefRules},
 			{Name: "LOOPVAR", Doc: "no pointer to a per-loop (go 1.18) iteration variable is kept as a reference: it would point at a copy, and at the last element's", MinInstances: 0, Run: func(c *Ctx) { runLoopVarAlias(c, staticParseFns(c), "LOOPVAR") }},
+			{Name: "REJECT", Doc: "no value (in particular no resolved reference) is carried from one row to the next on a path that rejects the row: a later row cannot inherit an earlier row's reference", MinInstances: 7, Run: runRejectInert},
+			{Name: "CACHE", Doc: "a lookup cache carried across rows is coherent: pointer and key change together", MinInstances: 1, Run: runCacheCoherence},
 			{Name: "REQ", Doc: "required references non-nil at append", MinInstances: 1, Run: runRequiredRefs},
 			{Name: "FOREST", Doc: "parent links form a forest; Root terminates", MinInstances: 2, Run: runForest},
 		},
